@@ -159,7 +159,7 @@ Proof.
 Qed.
 
 (* the first |p| clauses of pt match p name by name (pt is at least as long as p) *)
-Fixpoint pre_matches (pt : pat) (p : path) : bool :=
+Fixpoint pre_matches (pt : pat) (p : path) {struct p} : bool :=
   match p, pt with
   | [], _ => true
   | k :: p', c :: pt' => cmatch c k && pre_matches pt' p'
@@ -175,9 +175,10 @@ Qed.
 Lemma pre_matches_snoc : forall (pt : pat) (p : path) (k : name),
   pre_matches pt (p ++ [k]) = pre_matches pt p && match nth_error pt (length p) with Some c => cmatch c k | None => false end.
 Proof.
-  induction pt as [|c pt IH]; intros [|a p] k; cbn; try reflexivity.
+  induction pt as [|c pt IH]; intros [|a p] k; cbn.
+  - reflexivity.
+  - reflexivity.
   - now rewrite andb_true_r.
-  - destruct p; reflexivity.
   - rewrite IH. now rewrite andb_assoc.
 Qed.
 
@@ -185,8 +186,7 @@ Lemma pat_matches_pre : forall (pt : pat) (p : path),
   pat_matches pt p = pre_matches pt p && Nat.eqb (length pt) (length p).
 Proof.
   induction pt as [|c pt IH]; intros [|a p]; cbn; try reflexivity.
-  - now rewrite andb_false_r.
-  - rewrite IH. now rewrite andb_assoc.
+  rewrite IH. now rewrite andb_assoc.
 Qed.
 
 Lemma pat_matches_snoc : forall (pt : pat) (p : path) (k : name),
@@ -258,7 +258,7 @@ Proof.
     + apply all_entries_in. now exists d, es.
     + now apply (LEN d es e).
   - intros [H L]. apply all_entries_in in H. destruct H as [d' [es [H1 H2]]].
-    assert (d' = d) by (rewrite <- L; symmetry; now apply (LEN d' es e)). subst.
+    assert (Ed : d' = d) by (rewrite <- L; symmetry; now apply (LEN d' es e)). subst d'.
     now apply (group_get_intro _ d es e).
 Qed.
 
@@ -291,12 +291,12 @@ Lemma active_spec : forall (m : matcher) (rel : nat) (e : entry), matcher_wf m -
    In e (all_entries m) /\ rel < length (e_pat e)).
 Proof.
   intros m rel e [ND LEN]. rewrite in_flat_map. split.
-  - intros [[d es] [H1 H2]]. cbn in H2. destruct (Nat.ltb rel d) eqn:E; [|destruct H2].
+  - intros [[d es] [H1 H2]]. cbn [fst snd] in H2. destruct (Nat.ltb rel d) eqn:E; [|destruct H2].
     apply Nat.ltb_lt in E. split.
     + apply all_entries_in. now exists d, es.
     + now rewrite (LEN d es e H1 H2).
   - intros [H L]. apply all_entries_in in H. destruct H as [d [es [H1 H2]]].
-    exists (d, es). split; [assumption|]. cbn.
+    exists (d, es). split; [assumption|]. cbn [fst snd].
     rewrite <- (LEN d es e H1 H2). apply Nat.ltb_lt in L. now rewrite L.
 Qed.
 
